@@ -209,6 +209,36 @@ PROPS['C04'] = {
     'technique': 'Lean 4 proof (permutation invariance) + regenerated site list (translator) + multi-process differential check',
 }
 
+ADDS_RULE = ('generated base modules (0-2 function / 0-2 global / 0-1 memory imports in random interleaving, 1-3 marked local globals, 2-4 local functions with named parameters and locals, named functions and '
+             'globals, optional data-count section) x histories of 1-7 operations: build a function (0-2 params, 0-2 results, 0-4 locals over 25 value types with repeats, random body incl. NaN constants, optional name), '
+             'add_global (i32/i64/f32/f64/v128/funcref/(ref func); initialisers: boundary constants, NaN patterns, global.get of an import, ref.func, ref.null), mod_global_init_expr, add_data (passive / active with '
+             'constant or global.get offset), add_local_memory / add_import_memory (limits, shared), add_export_func / add_export_mem, add_import_func, add_imported_global, delete_func, set_fn_name; every returned id is used '
+             '(exports, witness functions reading added globals); distinct by case line; non-trivial always')
+ADDS_TRUST = COMMON_TRUST + [
+    'the index-space model M2 (C06-C11) under its state invariant; content that the model passes through unchanged (types, limits, bytes, names of exports) is decided per case by the decoder-based oracle of the adds family',
+    'modelled, not verified: wasm-encoder for everything below the level of "which instruction with which immediates"; Rust float moves f32::from_bits / to_bits (sampled with signalling-NaN patterns)',
+]
+def adds_prop(title, files, level_text, technique, translator=False):
+    return {
+        'title': title, 'props_files': files, 'translator': translator,
+        'families': [{'name': 'adds', 'quick_n': 2500, 'thorough_n': 200000}],
+        'rule': ADDS_RULE, 'trusted': ADDS_TRUST, 'assumptions': ['fewer than 2^32 entities per index space'],
+        'design_ref': 'DESIGN.md section 6', 'level_text': level_text, 'technique': technique,
+    }
+PROPS['C12'] = adds_prop('Built functions appear exactly as built', ['Orca/Props/C12.lean'],
+    'Lean 4 theorems, one per clause: body = built instructions + one end and emitted verbatim (M14, M3), declared locals = requested sequence with fresh consecutive indices (M6), the function type is interned exactly and '
+    'frames the existing types (M5), the returned id is the storage position that encode maps to the output index (M2), the name is handed over unchanged (M13/C29); tied to the code by building random functions among renumbering edits and decoding the output.',
+    'Lean 4 proof (composition of the builder, locals, types, emission and index-space models) + differential correspondence check')
+PROPS['C30'] = adds_prop('Module-level additions appear exactly as requested', ['Orca/Props/C30.lean'],
+    'Lean 4 theorems: every InitInstr variant is encoded as the instruction it denotes and every constant payload keeps its bit pattern (tables regenerated from InitExpr::to_wasmencoder_type; f32/f64 through to_bits, '
+    'v128 through u128-as-i128 and little-endian bytes: proved for all 16-byte vectors); reported ids are storage positions; mod_global_init_expr changes that initialiser only. Types, limits, bytes and export targets are '
+    'decided per case by decoding the output of random addition histories.',
+    'Lean 4 proof over tables regenerated from the source (translator) + bit-pattern lemmas + differential correspondence check', translator=True)
+PROPS['C29'] = adds_prop('Names stay attached to their entities', ['Orca/Props/C29.lean'],
+    'Lean 4 theorems over the names model (M13) on top of M1/M2: the name section names a local function\'s new index with exactly the name stored on that function, set_fn_name stores the name on the designated function only, '
+    'local and global names are re-keyed with the id map, which sends each live id to the new position of the same entity and deleted ids nowhere; emitted maps are sorted. After the repairs F24 and F33 the property holds on the whole input space of the adds family.',
+    'Lean 4 proof (names model + re-indexing theorem) + differential correspondence check')
+
 SEM_RULE = ("generated terminating programs of the core fragment (0-2 i32 params, 0-2 results, globals, one memory, three callees incl. one with side effects; statements: "
             "log, local/global set, store, drop, block, counted loop, if/else, br, br_if, br_table, return, unreachable; expressions incl. value-producing block / if, loads, "
             "division that may trap, calls; nesting <= 3) x injection plans of 1-6 steps over before / after / semantic_after / block_entry / block_exit / function entry / exit "
